@@ -469,10 +469,9 @@ static void arena_body(void* arg) {
   g_ar_done.fetch_add(1, std::memory_order_release);
 }
 static size_t g_probe_single = 0; static int g_probe_whole = -1;
-static void arena_probe_body(void* arg) {
-  // after everything has been freed: the arena can be allocated completely again
-  ThreadCtx& t = *(ThreadCtx*)arg; (void)t;
-  wait_until(g_ar_done, C.threads, "arena workers done");
+static void arena_probe(void) {
+  // after everything has been freed and every worker thread has terminated (true quiescence: a purge that runs in an exiting
+  // thread temporarily claims the blocks it purges): the arena can be allocated completely again
   vf_cur_what = "capacity probe";
   mi_collect(true);
   mi_heap_t* h = mi_heap_new_in_arena(g_arena_id);
@@ -610,7 +609,7 @@ int main(int argc, char** argv) {
     for (int s = 0; s < C.threads; s++) spawn_exit_thread(0, s);
     vf_thread_create(&exit_final_body, new_ctx(6));
   }
-  else if (C.scenario == "arena") { for (int i = 0; i < C.threads; i++) vf_thread_create(&arena_body, new_ctx(7)); vf_thread_create(&arena_probe_body, new_ctx(8)); }
+  else if (C.scenario == "arena") { for (int i = 0; i < C.threads; i++) vf_thread_create(&arena_body, new_ctx(7)); }
   else vf_trip("harness", "", "unknown scenario");
   vf_run_all();
   vf_mode = 0;
@@ -619,6 +618,7 @@ int main(int argc, char** argv) {
   vf_cur_what = "offline lifetime replay";
   replay_lifetimes();
   if (C.scenario == "prodcons") prodcons_check_bounded();
+  if (C.scenario == "arena") arena_probe();
   if (C.scenario == "exit" || C.scenario == "xfree") final_exit_checks();
   if (vf_err_count != 0 && C.scenario == "arena") {
     // a heap bound to a full arena reports "unable to allocate memory" (ENOMEM) for every failed claim: expected
